@@ -123,6 +123,7 @@ def _apply_filters(envs, filters):
         elif f[0] == "shuffle_n": envs = envs.shuffle(n=f[1])
         elif f[0] == "shuffle":   envs = envs.shuffle(f[1])
         elif f[0] == "take":      envs = envs.take(f[1])
+        elif f[0] == "take_strict": envs = envs.take(f[1], strict=True)      # more than there are: an environment without interactions
         elif f[0] == "scale":     envs = envs.scale("min", "minmax")
         elif f[0] == "noise":     envs = envs.noise(context=("g", 0, .1), seed=f[1])
         elif f[0] == "sleepy":    envs = envs.filter(comp.SleepyFilter(f[1], f[2]))
@@ -163,6 +164,7 @@ def build_evaluator(v, side, fail=None):
     if k == "cb-ips":    return comp.LoggingCB(side, v["tag"], learn="ips", eval="ips")        # needs logged environments (others fail: logged, no rows)
     if k == "rejection": return comp.LoggingRejection(side, v["tag"], seed=v["seed"])
     if k == "rec":       return comp.RecEvaluator(v["tag"], side, v["nrows"], **(fail or {}))
+    if k == "rec-sum":   return comp.RecSummaryEvaluator(v["tag"], side, v["nrows"], **(fail or {}))
     if k == "func":      return comp.rec_function_evaluator
     raise ValueError(k)
 
